@@ -371,7 +371,14 @@ pub fn gen_tileset(rng: &mut Rng, opts: &GenOpts) -> TileSet {
 			}
 		};
 		last_raw = raw.clone();
-		let stored = if opts.really_compress { comp::compress(&raw, comp) } else { raw };
+		let stored = if opts.really_compress && comp == Comp::Gzip && raw.len() >= 2 && rng.chance(0.04) {
+			// the tile as a gzip file of two members
+			comp::gzip_two_members(&raw, 1 + rng.usize_below(raw.len() - 1))
+		} else if opts.really_compress {
+			comp::compress(&raw, comp)
+		} else {
+			raw
+		};
 		tiles.insert((z, x, y), stored);
 	}
 	let tilejson = gen_tilejson(rng, format);
